@@ -37,7 +37,7 @@ class C07(Property):
     nontrivial_rule = "whole files (noise, grammar with hostile values, mutations/truncations of bundled maps, encodings); non-trivial = Beatmap dump differs from the default map"
 
     def gen(self, rng, tier):
-        cases = []
+        cases = [Case("defaults", corr=False, tags=("defaults",))]
         n = 1200 if tier == "quick" else 40000
         for _ in range(n):
             tag, data = file_case(rng, tier)
